@@ -1115,13 +1115,13 @@ def check_C16(ctx):
 def _prng_init_source(ctx):
     """TJ.Props.C17Gen: the term REGENERATED from tinyjambu_prng_init_user (user-callback case) equals the model's initUser; the status is 1 exactly on a full delivery"""
     import taint
-    ok, stats = taint.regenerate(ctx, ('TJ.Props.C17Gen', 'TJ.Props.C16Gen'))
+    ok, stats = taint.regenerate(ctx, ('TJ.Props.C17Gen', 'TJ.Props.C16Gen', 'TJ.Props.C18Gen'))
     ctx.extra_cov['minic'] = {k: stats.get(k) for k in ('functions', 'translated', 'errors', 'build_ok')}
     if stats.get('errors'): ctx.broken_proofs.append('tools/c2lean.py cannot translate the current sources: ' + '; '.join(stats['errors'][:3]))
-    elif not ok: ctx.broken_proofs.append('TJ.Props.C17Gen (regenerated tinyjambu_prng_init_user with a user callback = the model\'s initUser, status 1 iff full delivery) no longer checks: ' + re.sub(r'\s+', ' ', stats.get('build_log_tail', ''))[-600:])
+    elif not ok: ctx.broken_proofs.append('TJ.Props.C17Gen / C16Gen / C18Gen (regenerated tinyjambu_prng_init_user with a user callback = the model\'s initUser, status 1 iff full delivery; tinyjambu_prng_init + any history = the model over the OS outcome script) no longer check: ' + re.sub(r'\s+', ' ', stats.get('build_log_tail', ''))[-600:])
 
 def check_C17(ctx):
-    ctx.build(); _prng_init_source(ctx); ctx.lean(extra_modules=['TJ.Props.C17Gen', 'TJ.Props.C16Gen'])
+    ctx.build(); _prng_init_source(ctx); ctx.lean(extra_modules=['TJ.Props.C17Gen', 'TJ.Props.C16Gen', 'TJ.Props.C18Gen'])
     import itertools
     g = ctx.g; lines = []; n = 0
     kinds = ['full', 'short', 'zero', 'fullret-short', 'over']
@@ -1174,8 +1174,17 @@ def check_C17(ctx):
                      'tinyjambu_prng_init_user with a NULL callback must behave exactly like tinyjambu_prng_init (ops 2-4 vs 6-8)',
                      key='init-user-null-callback' if any('crash' in x for x in b) else None)
 
+def _sys_source(ctx):
+    """TJ.Props.C18Gen: tinyjambu_prng_init and every later history on the REGENERATED code, with the entropy primitive delivering what an OS outcome script collapses to,
+    = the hand model's Prng.init / runOps over that script (trngRead: retry transient errors, stop at the first success or permanent error)"""
+    import taint
+    ok, stats = taint.regenerate(ctx, ('TJ.Props.C18Gen',))
+    ctx.extra_cov['minic'] = {k: stats.get(k) for k in ('functions', 'translated', 'errors', 'build_ok')}
+    if stats.get('errors'): ctx.broken_proofs.append('tools/c2lean.py cannot translate the current sources: ' + '; '.join(stats['errors'][:3]))
+    elif not ok: ctx.broken_proofs.append('TJ.Props.C18Gen (regenerated tinyjambu_prng_init + any history of PRNG calls = the hand model over the OS outcome script) no longer checks: ' + re.sub(r'\s+', ' ', stats.get('build_log_tail', ''))[-600:])
+
 def check_C18(ctx):
-    ctx.lean(); ctx.build()
+    ctx.build(); _sys_source(ctx); ctx.lean(extra_modules=['TJ.Props.C18Gen'])
     import itertools
     g = ctx.g; lines = []; exp = []
     maxlen = 4 if ctx.tier == 'quick' else 5
